@@ -62,7 +62,13 @@ def check(arg):
         for o in objs:
             o.ipnets()
             o.subnet_of(objs[0])
-        mod.collapse(objs)
+        try:
+            first = mod.collapse(objs)
+            if [o.line for o in first] != [prev]:
+                bad("history", f"collapsing {len(objs)} copies of {prev!r} gives {[o.line for o in first]}")
+        except Exception as ex:
+            bad("history", f"collapsing {len(objs)} copies of {prev!r} raised {type(ex).__name__}: {ex}")
+            return fails, 1
         for o, t, (a, l) in zip(objs, texts, nets):
             if history == "line":
                 o.line = t
@@ -125,7 +131,91 @@ def check_refusal(arg):
     return [dict(key=f"bounded/collapse:refusal:{kind}", what=f"{kind}: accepted instead of refused with TypeError", inputs=dict(kind=kind))], 1
 
 
+def random_lists(seed, count):
+    """lists of related networks anywhere in the address space: a seeded base network plus relatives
+    (sibling, parent, child, neighbour block, duplicate, unrelated)"""
+    import random
+    rnd = random.Random(seed)
+    out = []
+    for _ in range(count):
+        l = rnd.randint(1, 32)
+        a = rnd.getrandbits(32) & (0xFFFFFFFF << (32 - l)) & 0xFFFFFFFF
+        nets = [(a, l)]
+        for _ in range(rnd.randint(0, 5)):
+            b, m = rnd.choice(nets)
+            kind = rnd.choice("spcnnduS")
+            if kind == "s" and m >= 1:
+                nets.append((b ^ (1 << (32 - m)), m))
+            elif kind == "S" and m >= 2:                       # sibling of the parent
+                pm = m - 1
+                pb = b & (0xFFFFFFFF << (32 - pm)) & 0xFFFFFFFF
+                nets.append((pb ^ (1 << (32 - pm)), pm))
+            elif kind == "p" and m >= 2:
+                nets.append((b & (0xFFFFFFFF << (33 - m)) & 0xFFFFFFFF, m - 1))
+            elif kind == "c" and m <= 31:
+                nets.append((b | (rnd.randint(0, 1) << (31 - m)), m + 1))
+            elif kind == "n":
+                nb = (b + (1 << (32 - m))) & 0xFFFFFFFF
+                if nb > b:
+                    nets.append((nb, m))
+            elif kind == "d":
+                nets.append((b, m))
+            else:
+                m2 = rnd.randint(1, 32)
+                nets.append((rnd.getrandbits(32) & (0xFFFFFFFF << (32 - m2)) & 0xFFFFFFFF, m2))
+        rnd.shuffle(nets)
+        out.append(tuple(nets))
+    return out
+
+
+def check_netdefs(seed):
+    """the bit-level definitions behind the engine's network facts (pyvc.lemmas.NetDefs) against CPython's ipaddress"""
+    import ipaddress
+    import random
+    import z3
+    from pyvc.lemmas import NetDefs as D
+    from pyvc.values import Net, BVW
+    rnd = random.Random(seed)
+
+    def mk(n):
+        return Net.mk_net(z3.BitVecVal(int(n.network_address), BVW), z3.IntVal(n.prefixlen))
+
+    def rd(t):
+        t = z3.simplify(t)
+        return ipaddress.IPv4Network((z3.simplify(Net.addr(t)).as_long(), z3.simplify(Net.plen(t)).as_long()))
+    fails, done = [], 0
+    nets = [ipaddress.IPv4Network("0.0.0.0/0"), ipaddress.IPv4Network("255.255.255.255/32"), ipaddress.IPv4Network("128.0.0.0/1")]
+    for _ in range(60):
+        l = rnd.randint(0, 32)
+        a = rnd.getrandbits(32) & (0xFFFFFFFF << (32 - l)) & 0xFFFFFFFF
+        nets.append(ipaddress.IPv4Network((a, l)))
+    for n in nets:
+        done += 1
+        if rd(D.supernet(mk(n))) != n.supernet():
+            fails.append(f"supernet({n})")
+        if [rd(x) for x in D.subnets(mk(n))] != (list(n.subnets()) * 2)[:2]:
+            fails.append(f"subnets({n})")
+        if not z3.is_true(z3.simplify(D.wf(mk(n)))):
+            fails.append(f"wf({n})")
+        for m in (n.supernet(), rnd.choice(nets), next(iter(n.subnets()))):
+            if z3.is_true(z3.simplify(D.subnet_of(mk(n), mk(m)))) != n.subnet_of(m):
+                fails.append(f"subnet_of({n}, {m})")
+        for a in (int(n.network_address), int(n.broadcast_address), (int(n.broadcast_address) + 1) & 0xFFFFFFFF, rnd.getrandbits(32)):
+            if z3.is_true(z3.simplify(D.has(z3.BitVecVal(a, BVW), mk(n)))) != (ipaddress.IPv4Address(a) in n):
+                fails.append(f"{a} in {n}")
+    return fails, done
+
+
 def main(chk):
+    t0 = time.time()
+    # deductive part: the work-list loop of collapse_ keeps the covered set (contracts/c_collapse.py)
+    chk.prove(["c_collapse"])
+    chk.replay_refuted()
+    fails, done = check_netdefs(chk.seed)
+    for f in fails:
+        chk.finding("bounded/netdefs", f"the engine's definition disagrees with CPython ipaddress on {f}", inputs=dict(case=f), key="bounded/netdefs")
+    chk.add_bounded("bit-level definitions of supernet/subnets/subnet_of/membership used by the engine lemmas == CPython ipaddress", done, done,
+                    "63 networks (all prefix lengths, seeded) x 4 addresses / 3 partners", len(fails), time.time() - t0, ["10.0.0.0/8"], exhaustive=False)
     t0 = time.time()
     P = prefixes()
     n = 3 if chk.tier == "quick" else 4
@@ -142,7 +232,11 @@ def main(chk):
             for cp in [("Address", "ios"), ("Address", "nxos"), ("AddressAg", "ios"), ("AddressAg", "nxos")]:
                 if cp != (cls, platform):
                     cases.append((c,) + cp)
-    hist = [c + (h,) for i, c in enumerate(cases) if len(c[0]) <= 2 and (chk.tier != "quick" or i % 5 == 0)
+    n_enum = len(cases)
+    rl = random_lists(chk.seed, 3000 if chk.tier == "quick" else 40000)
+    for i, c in enumerate(rl):
+        cases.append((c,) + [("Address", "ios"), ("Address", "nxos"), ("AddressAg", "ios"), ("AddressAg", "nxos")][i % 4])
+    hist = [c + (h,) for i, c in enumerate(cases[:n_enum]) if len(c[0]) <= 2 and (chk.tier != "quick" or i % 5 == 0)
             for h in ("line", "prefix", "prefix-queried")]
     cases += hist
     res = pmap(check, cases)
@@ -153,15 +247,23 @@ def main(chk):
             chk.finding(f["key"], f["what"], inputs=f["inputs"], cmd=f.get("cmd"), key=f["key"])
     chk.add_bounded("collapse: covered set equal (exact trie algebra), never longer, sorted, notes empty, class/platform kept", len(cases), sum(d for _, d in res),
                     f"lists of <= {n} networks (any order, duplicates, nesting, adjacency) from the 31 prefixes of 10.0.0.0/28 plus /0 and both /1; both classes, both platforms "
-                    "(lists of maximal length are sampled 1 in 3/6); lists of <= 2 also on objects that held another address, were queried and collapsed, "
+                    "(lists of maximal length are sampled 1 in 3/6); "
+                    f"{len(rl)} seeded lists of 1..6 related networks (siblings, parents, children, neighbours, duplicates) anywhere in the address space; lists of <= 2 also on objects that held another address, were queried and collapsed, "
                     f"then re-addressed through the line / prefix setters ({len(hist)} histories)", viol, time.time() - t0, [[f"{quad(a)}/{l}" for a, l in cases[500][0]]], exhaustive=False)
     res = pmap(check_refusal, ["nc", "foreign", "foreign2", "str", "nc-ag"])
     for fails, _ in res:
         for f in fails:
             chk.finding(f["key"], f["what"], inputs=f["inputs"], key=f["key"])
     chk.add_bounded("refusals (non-contiguous wildcard, foreign object types)", 5, 5, "5 fixed cases", sum(len(f) for f, _ in res), 0.1, ["nc"], exhaustive=True)
-    chk.assumptions += ["address_base.collapse_ (work-list loop with supernet merging) is not under a deductive contract yet: bounded only; termination is observed, not proved"]
-    return chk.finish("other", "Bounded contract check of address.collapse / address_ag.collapse with exact set algebra.", trusted_base=["spec/sets.py"])
+    chk.assumptions += ["termination of the work-list loop of collapse_ is observed (bounded), not proved: no measure is stated",
+                        "IPv4Network values are well-formed (ipaddress strict=True invariant); networks are abstract values in the list-level VCs, tied to bits by the "
+                        "engine lemmas engine.net.* (proved each run) and the CPython cross-check of their definitions",
+                        "ghost list IPN(o) of an address object: value of o.ipnets() at entry for the inputs, at return for the results; sound because copy() returns "
+                        "new objects (assumed)"]
+    return chk.finish("other", "Deductive: address_base.collapse_ under contract - refusal scan, work-list loop (invariant: networks in the work list and the finished list "
+                      "cover exactly the input addresses; skip / merge / merge-without-insert / finish paths), result objects, permutation by sorted(); assumed contracts "
+                      "for ipnets(), copy(), prefix setter. Bounded (labelled): the public collapse functions with exact set algebra (also order, length, notes, class, "
+                      "refusals, re-addressing histories), which also exercises the assumed contracts natively.", trusted_base=["z3 5.1.0", "pyvc", "spec/sets.py"])
 
 
 if __name__ == "__main__":
